@@ -17,9 +17,9 @@ def assertion_methods(p):
 
 # documented design, frozen: the on-disk DataFrame assertions file parquet references under the 'csv' kind
 # ("CSV is used here, and applies, for now, to parqet as well as CSV" in both docstrings)
-KIND_ALIAS = {
-    "ReferenceTest.assertOnDiskDataFrameCorrect::if kind == 'parquet'::kind = 'csv'": 'docstring: csv kind applies to parquet',
-    "ReferenceTest.assertOnDiskDataFramesCorrect::if kind == 'parquet'::kind = 'csv'": 'docstring: csv kind applies to parquet',
+KIND_ALIAS_METHODS = {
+    'assertOnDiskDataFrameCorrect': 'docstring: the csv kind applies to parquet as well',
+    'assertOnDiskDataFramesCorrect': 'docstring: the csv kind applies to parquet as well',
 }
 
 
@@ -137,22 +137,31 @@ def check(run):
                     seen_k += 1
                     if not (isinstance(karg, ast.Name) and karg.id == 'kind'):
                         bad.append(('%s receives %s instead of kind' % (nm, ast.unparse(karg)), n))
-            # the parameter itself must still be the caller's label when it is used
-            par = {}
-            for n in p.own_nodes(m):
-                for c in ast.iter_child_nodes(n):
-                    par[c] = n
-            for n in p.own_nodes(m):
-                for t in stored_names(n):
-                    if t == 'kind':
-                        seen_k += 1
-                        up = par.get(n)
-                        cond = 'if %s::' % norm(up.test) if isinstance(up, ast.If) and n in up.body else ''
-                        key = '%s::%s%s' % (m.short, cond, norm(n))
-                        if key in KIND_ALIAS:
-                            run.note('C10-KINDFWD', 'documented alias kept: %s (%s)' % (key, KIND_ALIAS[key]), fn=m, node=n)
-                        else:
-                            bad.append(('the kind label is rewritten before it is used: %s' % norm(n)[:80], n))
+            # the parameter itself must still be the caller's label when it is used: the statements that rebind it are
+            # evaluated for sample labels; only the documented alias (parquet filed under csv, in the on-disk DataFrame
+            # assertions) may change a label
+            rebinders = []
+            for st in m.node.body:
+                if any('kind' in stored_names(x) for x in ast.walk(st) if isinstance(x, ast.stmt)):
+                    rebinders.append(st)
+            if rebinders:
+                from ..pyeval import Interp, Unsupported
+                alias_ok = m.name in KIND_ALIAS_METHODS
+                for sample in ('parquet', 'csv', 'table', 'graph', None):
+                    I = Interp(p)
+                    env = {q: None for q in m.params}
+                    env['kind'] = sample
+                    try:
+                        for st in rebinders:
+                            I.stmt(st, env, m.mod)
+                    except Unsupported as e:
+                        raise AnalysisError('%s: rebinding of kind not evaluable: %s' % (m.short, e))
+                    seen_k += 1
+                    want_k = 'csv' if (alias_ok and sample == 'parquet') else sample
+                    if env['kind'] != want_k:
+                        bad.append(('the kind label %r is rewritten to %r before it is used' % (sample, env['kind']), rebinders[0]))
+                if alias_ok:
+                    run.note('C10-KINDFWD', 'documented alias kept in %s: %s' % (m.short, KIND_ALIAS_METHODS[m.name]), fn=m, node=rebinders[0])
             dd = {}
             for msg, node in bad:
                 dd[msg] = node
@@ -234,124 +243,128 @@ def whosets(run, p, rt):
         for n in p.own_nodes(f):
             if isinstance(n, ast.Call) and isinstance(n.func, ast.Attribute) and n.func.attr == 'set_regeneration':
                 callers.append((f, n))
-    for f, n in callers:
-        reads_cli = False
-        for x in p.own_nodes(f):
+    def reads_cli(g):
+        for x in p.own_nodes(g):
             if isinstance(x, ast.Name) and x.id == 'argv':
-                reads_cli = True
+                return True
             if isinstance(x, ast.Call) and isinstance(x.func, ast.Attribute) and x.func.attr == 'getoption':
-                reads_cli = True
-        run.ob('C10-WHOSETS', '%s::%s::call:%s' % (f.rel, f.short, norm(n)), reads_cli,
+                return True
+        return False
+
+    def cli_context(f):
+        # the function reads the command line itself, hands the job to a helper that does, or is a helper of functions that do
+        if reads_cli(f):
+            return True
+        if any(reads_cli(g) for _c, ts, _k in p.calls(f) for g, _ctx in ts):
+            return True
+        users = [g for g in p.funcs.values() if g is not f and any(t is f for _c, ts, _k in p.calls(g) for t, _ctx in ts)]
+        return bool(users) and all(reads_cli(g) for g in users)
+    for f, n in callers:
+        run.ob('C10-WHOSETS', '%s::%s::call:%s' % (f.rel, f.short, norm(n)), cli_context(f),
                '%s calls %s' % (f.short, norm(n)), fn=f, node=n)
-    run.floor('C10-WHOSETS', len(stores) + len(callers), 5)
+    run.floor('C10-WHOSETS', len(stores), 1)
+    for rel in ('tdda/referencetest/referencetestcase.py', 'tdda/referencetest/referencepytest.py'):
+        if not any(f.rel == rel for f, _n in callers):
+            raise AnalysisError('no call of set_regeneration left in %s: the command-line front end has changed shape' % rel)
 
 
 def flags(run, p):
-    run.rule('C10-FLAGS', 'each documented spelling (-W --W --write-all / -w --w --write / -wquiet --wquiet) is a literal tested '
-                          'against argv; set_regeneration() for all kinds is reached only through those write-all literals and '
-                          'set_regeneration(kind) only under the write literals with kind split on commas; every pytest '
-                          'getoption(x) has an addoption(x)')
-    f = p.fn('_set_flags_from_argv')
-    lits = set()
-    for n in p.own_nodes(f):
-        if isinstance(n, ast.Constant) and isinstance(n.value, str):
-            lits.add(n.value)
-    need = {'W': 'single-dash cluster letter W', '--W': '--W', '--write-all': '--write-all', '-w': '-w', '--w': '--w',
-            '--write': '--write', '-wquiet': '-wquiet', '--wquiet': '--wquiet'}
-    for k, what in sorted(need.items()):
-        run.ob('C10-FLAGS', '%s::%s::literal:%s' % (f.rel, f.short, k), k in lits,
-               'flag spelling %s is %s in the argv parser' % (what, 'present' if k in lits else 'MISSING'), fn=f, nontrivial=False)
-    gm = GuardMap(f.node)
-    # where is `regenerate` set True, and under which literal tests
-    for n in p.own_nodes(f):
-        if isinstance(n, ast.Assign) and any(isinstance(t, ast.Name) and t.id == 'regenerate' for t in n.targets):
-            if isinstance(n.value, ast.Constant) and n.value.value is True:
-                ch = gm.chain(n) or ()
-                txt = ' & '.join(g.text() for g in ch)
-                consts = set()
-                for g in ch:
-                    node = g.test if g.kind == 'if' else (g.test.iter if g.kind == 'loop' and isinstance(g.test, ast.For) else None)
-                    if node is not None:
-                        for x in ast.walk(node):
-                            if isinstance(x, ast.Constant) and isinstance(x.value, str):
-                                consts.add(x.value)
-                ok = bool(consts & {'W', '--W', '--write-all'}) and not (consts & {'-w', '--w', '--write', '1', '0', '--tagged'})
-                run.ob('C10-FLAGS', '%s::%s::regenerate=True@%s' % (f.rel, f.short, '|'.join(sorted(consts & set(need)))), ok,
-                       'write-all is switched on under [%s]' % txt, fn=f, node=n)
-        if isinstance(n, ast.Call) and isinstance(n.func, ast.Attribute) and n.func.attr == 'set_regeneration':
-            ch = gm.chain(n) or ()
-            txt = ' & '.join(g.text() for g in ch)
-            if not n.args and not n.keywords:
-                ok = any(g.kind == 'if' and g.pol and ast.unparse(g.test) == 'regenerate' for g in ch)
-                run.ob('C10-FLAGS', '%s::%s::set_regeneration()' % (f.rel, f.short), ok,
-                       'all-kinds regeneration is requested under [%s]' % txt, fn=f, node=n)
-            else:
-                consts = set()
-                split_comma = False
-                for g in ch:
-                    if g.kind == 'loop' and isinstance(g.test, ast.For):
-                        for x in ast.walk(g.test.iter):
-                            if isinstance(x, ast.Constant) and isinstance(x.value, str):
-                                consts.add(x.value)
-                            if isinstance(x, ast.Call) and isinstance(x.func, ast.Attribute) and x.func.attr == 'split' \
-                                    and x.args and isinstance(x.args[0], ast.Constant) and x.args[0].value == ',':
-                                split_comma = True
-                ok = {'-w', '--w', '--write'} <= consts and split_comma and not (consts & {'--write-all', '--W'})
-                run.ob('C10-FLAGS', '%s::%s::set_regeneration(kind)' % (f.rel, f.short), ok,
-                       'per-kind regeneration is requested inside the loop over %s, kinds split on commas: %s'
-                       % (sorted(consts), split_comma), fn=f, node=n)
-    # pytest side
-    adds, gets = set(), []
-    for g in p.funcs.values():
-        if g.mod.name.startswith('tdda.referencetest'):
-            for n in p.own_nodes(g):
-                if isinstance(n, ast.Call) and isinstance(n.func, ast.Attribute) and n.args and \
-                        isinstance(n.args[0], ast.Constant) and isinstance(n.args[0].value, str):
-                    if n.func.attr == 'addoption':
-                        adds.add(n.args[0].value)
-                    elif n.func.attr == 'getoption':
-                        gets.append((g, n, n.args[0].value))
-    for g, n, opt in gets:
-        run.ob('C10-FLAGS', '%s::%s::getoption:%s' % (g.rel, g.short, opt), opt in adds,
-               'pytest option %s read by %s is %s' % (opt, g.short, 'registered' if opt in adds else 'never registered by addoption'),
-               fn=g, node=n, nontrivial=False)
-    # pytest ref(): write-all -> set_regeneration(), write -> per kind with comma split
-    r = p.fn('referencepytest.ref')
-    gm = GuardMap(r.node)
-    for n in p.own_nodes(r):
-        if isinstance(n, ast.Call) and isinstance(n.func, ast.Attribute) and n.func.attr == 'set_regeneration':
-            ch = gm.chain(n) or ()
-            txt = ' & '.join(g.text() for g in ch)
-            opts = set()
-            for g in ch:
-                if g.kind == 'if' and g.pol:
-                    for x in ast.walk(g.test):
-                        if isinstance(x, ast.Constant) and isinstance(x.value, str):
-                            opts.add(x.value)
-            if not n.args:
-                ok = '--write-all' in opts
-                run.ob('C10-FLAGS', '%s::%s::set_regeneration()' % (r.rel, r.short), ok,
-                       'pytest: all-kinds regeneration under [%s]' % txt, fn=r, node=n)
-            else:
-                src = [g for g in ch if g.kind == 'loop']
-                split_comma = any(isinstance(x, ast.Call) and isinstance(x.func, ast.Attribute) and x.func.attr == 'split'
-                                  and x.args and isinstance(x.args[0], ast.Constant) and x.args[0].value == ','
-                                  for g in src for x in ast.walk(g.test.iter))
-                # the iterated value derives from getoption('--write')
-                from_write = False
-                for x in p.own_nodes(r):
-                    if isinstance(x, ast.Assign) and isinstance(x.value, ast.Call) and \
-                            isinstance(x.value.func, ast.Attribute) and x.value.func.attr == 'getoption' and \
-                            x.value.args and isinstance(x.value.args[0], ast.Constant) and x.value.args[0].value == '--write':
-                        names = {t.id for t in x.targets if isinstance(t, ast.Name)}
-                        for g in src:
-                            if any(isinstance(y, ast.Name) and y.id in names for y in ast.walk(g.test.iter)):
-                                from_write = True
-                not_all = any(g.kind == 'if' and not g.pol and '--write-all' in ast.unparse(g.test) for g in ch)
-                run.ob('C10-FLAGS', '%s::%s::set_regeneration(kind)' % (r.rel, r.short), split_comma and from_write and not_all,
-                       'pytest: per-kind regeneration from --write (comma split %s, from --write %s, not under --write-all %s)'
-                       % (split_comma, from_write, not_all), fn=r, node=n)
-    run.floor('C10-FLAGS', sum(1 for o in run.obs if o.rule == 'C10-FLAGS'), 14)
+    from ..pyeval import Interp, Model, Unsupported, Raised
+    run.rule('C10-FLAGS', 'regeneration is switched on exactly as the command line says, however it is spelled: over representative '
+                          'argument lists (-W, bundled -W letters, --W, --write-all; -w / --w / --write with one or several, '
+                          'comma-separated kinds; -wquiet / --wquiet; none of them; mixed with unittest options and the tagging '
+                          'options) the unittest parser calls set_regeneration() for all kinds only for a write-all spelling and '
+                          'set_regeneration(kind) exactly for the named kinds; the pytest fixture does the same for --write-all / '
+                          '--write; every pytest option read is declared - decided by abstract execution of both parsers')
+    f = p.fn('tdda.referencetest.referencetestcase._set_flags_from_argv')
+    cases = [
+        (['t.py'], []), (['t.py', '-v'], []), (['t.py', '-W'], [None]), (['t.py', '-1W'], [None]), (['t.py', '-W1'], [None]),
+        (['t.py', '--W'], [None]), (['t.py', '--write-all'], [None]), (['t.py', '-v', '--write-all'], [None]),
+        (['t.py', '--write', 'table'], ['table']), (['t.py', '--w', 'table,graph'], ['table', 'graph']),
+        (['t.py', '-w', 'table', 'graph'], ['table', 'graph']), (['t.py', '--write', 'a,b', 'c'], ['a', 'b', 'c']),
+        (['t.py', '--wquiet', '--write', 'table'], ['table']), (['t.py', '-wquiet', '--write-all'], [None]),
+        (['t.py', '--tagged'], []), (['t.py', '-1'], []), (['t.py', 'TestX', '--write', 'table'], ['table']),
+        (['t.py', '--write'], 'raise'),
+    ]
+    n = 0
+    for argv, want in cases:
+        I = Interp(p)
+        calls = []
+
+        def hook(m, args, kwargs, selfobj, calls=calls):
+            if m.name == 'set_regeneration':
+                kind = args[0] if args else kwargs.get('kind')
+                val = args[1] if len(args) > 1 else kwargs.get('regenerate', True)
+                calls.append((kind, val))
+                return True, None
+            if m.name == 'set_defaults':
+                return True, None
+            return False, None
+        I.on_call = hook
+        outcome = 'ok'
+        try:
+            I.call(f, [list(argv)])
+        except Raised:
+            outcome = 'raise'
+        except Unsupported as e:
+            raise AnalysisError('_set_flags_from_argv is not evaluable: %s' % e)
+        n += 1
+        if want == 'raise':
+            ok = outcome == 'raise' or not calls        # nothing named: refusing or regenerating nothing both satisfy the property
+        else:
+            ok = outcome == 'ok' and sorted(calls, key=repr) == sorted(((k, True) for k in want), key=repr)
+        run.ob('C10-FLAGS', 'unittest argv=%s' % ' '.join(argv[1:]), ok,
+               '%s: %s (expected %s)' % (' '.join(argv), 'raises' if outcome == 'raise' else 'set_regeneration calls %s' % calls,
+                                         'an error or no regeneration' if want == 'raise' else [(k, True) for k in want]), fn=f)
+    # pytest
+    r = p.fn('tdda.referencetest.referencepytest.ref')
+
+    class Config(Model):
+        def __init__(self, opts):
+            self.opts = opts
+            self.asked = []
+
+        def getoption(self, name, default=None):
+            self.asked.append(name)
+            return self.opts.get(name, default)
+
+    class Request(Model):
+        def __init__(self, opts):
+            self.config = Config(opts)
+    pcases = [({}, []), ({'--write-all': True}, [None]), ({'--write': ['table']}, ['table']), ({'--write': ['a,b', 'c']}, ['a', 'b', 'c']),
+              ({'--write-all': True, '--write': ['x']}, [None]), ({'--wquiet': True, '--write': ['t']}, ['t']), ({'--tagged': True}, [])]
+    asked = set()
+    for opts, want in pcases:
+        I = Interp(p)
+        calls = []
+
+        def hook(m, args, kwargs, selfobj, calls=calls):
+            if m.name == 'set_regeneration':
+                calls.append((args[0] if args else kwargs.get('kind'), args[1] if len(args) > 1 else kwargs.get('regenerate', True)))
+                return True, None
+            if m.name in ('set_defaults',) or (m.name == '__init__' and m.cls is not None and m.cls.name == 'ReferenceTest'):
+                return True, None
+            return False, None
+        I.on_call = hook
+        req = Request(opts)
+        try:
+            I.call(r, [req])
+        except Unsupported as e:
+            raise AnalysisError('referencepytest.ref is not evaluable: %s' % e)
+        asked |= set(req.config.asked)
+        n += 1
+        ok = sorted(calls, key=repr) == sorted(((k, True) for k in want), key=repr)
+        run.ob('C10-FLAGS', 'pytest options=%s' % sorted(opts), ok,
+               'pytest %s: set_regeneration calls %s (expected %s)' % (opts, calls, [(k, True) for k in want]), fn=r)
+    # every option the fixtures read is declared by addoption
+    ao = p.fn('tdda.referencetest.referencepytest.addoption')
+    adds = {x.args[0].value for x in p.own_nodes(ao) if isinstance(x, ast.Call) and isinstance(x.func, ast.Attribute) and x.func.attr == 'addoption'
+            and x.args and isinstance(x.args[0], ast.Constant)}
+    for opt in sorted(asked):
+        n += 1
+        run.ob('C10-FLAGS', 'pytest declares %s' % opt, opt in adds, 'option %s read by the fixture is %s by addoption' % (opt, 'declared' if opt in adds else 'NOT declared'),
+               fn=ao, nontrivial=False)
+    run.floor('C10-FLAGS', n, 25)
 
 
 def open_calls(p, f):
